@@ -11,7 +11,7 @@ from pyvc.contracts import Arr, Contract, Flt, Int, Lemma, Loop, RecSpec, Tup
 from pyvc.values import (FIN, NAN, NINF, PINF, SBool, SFloat, SInt, And, Implies, Ite, Not, Or, forall, int_sort,
                          to_int)
 
-P = ('C13',)
+P = ('C13', 'C17')
 FILE = 'spatialpandas/geometry/_algorithms/bounds.py'
 
 AV = z3.ArraySort(z3.IntSort(), z3.RealSort())
@@ -206,3 +206,12 @@ def register(reg):
     mk_attained_lemma('MAXV_attained', MAXV, WITMAX, float('-inf'))
     mk_bound_lemma('MINV_lower_bound', MINV, lambda f, x: f <= x, 'MINV_attained')
     mk_bound_lemma('MAXV_upper_bound', MAXV, lambda f, x: f >= x, 'MAXV_attained')
+
+    # C17: an element without coordinates (empty, or missing = empty range) has a NaN bounds row and adds nothing
+    # to the total bounds: MINV/MAXV over an empty range are the initial infinities, which the kernels turn into NaN
+    reg.add_lemma(Lemma('empty_range_is_inert', [('A', AV), ('T', AT), ('lo', 'int'), ('mid', 'int'), ('hi', 'int')],
+                        requires=lambda n: [And(n.lo <= n.mid, n.mid <= n.hi, (n.mid - n.lo) % 2 == 0, (n.hi - n.mid) % 2 == 0)],
+                        ensures=lambda n: [
+                            ('empty-min-is-inf', MINV(n.A, n.T, n.lo, n.lo).same(SFloat.const(float('inf')))),
+                            ('empty-max-is-neginf', MAXV(n.A, n.T, n.lo, n.lo).same(SFloat.const(float('-inf'))))],
+                        props=('C17', 'C13')))
